@@ -151,7 +151,7 @@ def _relational(arg):
         return (r1, r2, c)
     t0 = time.time()
     try:
-        paths, status = explore_closure(run, budget=8000 if tier == 'quick' else 40000, time_limit=60 if tier == 'quick' else 1200, cur_n=n,
+        paths, status = explore_closure(run, budget=8000 if tier == 'quick' else 40000, time_limit=60 if tier == 'quick' else 400, cur_n=n,
                                         interp_cls=SpecInterp, lazy_rel=True)
     except (Unsupported, Restart) as u:
         return dict(n=n, status='undecided', why='outside the subset: %s' % (u if isinstance(u, Unsupported) else 'conflicting normalisations'))
@@ -386,7 +386,7 @@ def check(prop, tier, args):
     isets.warm()
     absstr.table_lemmas()
     items = [(m, n, tier) for m in mods for n in list(range(0, nmax + 1)) + ['long']]
-    results = pool.pool_map(_relational, items, None, 200 if tier == 'quick' else 3000)
+    results = pool.pool_map(_relational, items, None, 200 if tier == 'quick' else 1000)
     for item, r, secs in sorted(results, key=lambda x: (x[0][0], str(x[0][1]).zfill(4))):
         m, n = item[0], item[1]
         rep.functions.update([m + ':validate', m + ':compact', 'contracts.specs:' + MODULES[m][0]])
